@@ -236,9 +236,13 @@ package comp
 // recency decreases towards 0 and then from length-1 down to idx+1 (those
 // later slots hold written values only once the ring has wrapped).
 
-//@ spec func validSlot(r *RAT, k K, i int) bool = k in r.idx && ((0 <= i && i <= r.idx[k]) || (r.wrapped[k] && r.idx[k] < i && i < r.length))
-//@ spec func rank(r *RAT, k K, i int) int = i <= r.idx[k] ? r.idx[k] - i : r.idx[k] + r.length - i
-//@ spec func wfRAT(r *RAT) bool = r != nil && 0 < r.length && r.length <= 1073741824 && r.values != nil && r.idx != nil && r.wrapped != nil \
+//@ opaque spec func has(r *RAT, k K) bool = k in r.idx
+//@ opaque spec func newest(r *RAT, k K) V = r.values[k][r.idx[k]]
+//@ opaque spec func slot(r *RAT, k K, i int) V = r.values[k][i]
+//@ opaque spec func ringLen(r *RAT) int = r.length
+//@ opaque spec func validSlot(r *RAT, k K, i int) bool = k in r.idx && ((0 <= i && i <= r.idx[k]) || (r.wrapped[k] && r.idx[k] < i && i < r.length))
+//@ opaque spec func rank(r *RAT, k K, i int) int = i <= r.idx[k] ? r.idx[k] - i : r.idx[k] + r.length - i
+//@ opaque spec func wfRAT(r *RAT) bool = r != nil && 0 < r.length && r.length <= 1073741824 && r.values != nil && r.idx != nil && r.wrapped != nil \
 //@    && (forall k K :: (k in r.idx) == (k in r.values)) \
 //@    && (forall k K :: k in r.idx ==> 0 <= r.idx[k] && r.idx[k] < r.length && len(r.values[k]) == r.length && allocated(r.values[k])) \
 //@    && (forall k K :: r.wrapped[k] ==> k in r.idx) \
@@ -247,13 +251,19 @@ package comp
 //@ func NewRAT
 //@   requires 0 < length && length <= 1073741824
 //@   ensures fresh(result) && wfRAT(result) && result.length == length
+//@   ensures fresh(result.idx) && fresh(result.values) && fresh(result.wrapped)
 //@   ensures forall k K :: !(k in result.idx)
+//@   ensures forall k K :: !has(result, k)
+//@   ensures ringLen(result) == length
 //@   assigns nothing
 
 //@ func (*RAT).Read
 //@   requires wfRAT(r)
 //@   ensures result1 == (k in r.idx)
 //@   ensures result1 ==> result == r.values[k][r.idx[k]]
+//@   ensures !result1 ==> result == zeroOf(result)
+//@   ensures result1 == has(r, k)
+//@   ensures result1 ==> result == newest(r, k) && validSlot(r, k, r.idx[k]) && rank(r, k, r.idx[k]) == 0 && slot(r, k, r.idx[k]) == newest(r, k)
 //@   assigns nothing
 
 // Find returns the most recently written value among the written slots that
@@ -262,6 +272,9 @@ package comp
 //@   requires wfRAT(r)
 //@   ensures result1 == (exists i :: validSlot(r, k, i) && predicate(r.values[k][i]))
 //@   ensures forall i :: result1 && validSlot(r, k, i) && predicate(r.values[k][i]) && (forall i2 :: validSlot(r, k, i2) && predicate(r.values[k][i2]) ==> rank(r, k, i) <= rank(r, k, i2)) ==> result == r.values[k][i]
+//@   ensures result1 == (exists i :: validSlot(r, k, i) && predicate(slot(r, k, i)))
+//@   ensures forall i :: result1 && validSlot(r, k, i) && predicate(slot(r, k, i)) && (forall i2 :: validSlot(r, k, i2) && predicate(slot(r, k, i2)) ==> rank(r, k, i) <= rank(r, k, i2)) ==> result == slot(r, k, i)
+//@   ensures result1 ==> (exists i :: validSlot(r, k, i) && result == slot(r, k, i) && predicate(result))
 //@   assigns nothing
 //@   loop 0: invariant -1 <= i && i <= idx && (forall j :: i < j && j <= idx ==> !predicate(r.values[k][j]))
 //@   loop 1: invariant idx <= i && i <= r.length - 1 && (forall j :: i < j && j < r.length ==> !predicate(r.values[k][j]))
@@ -276,6 +289,9 @@ package comp
 //@   ensures !old(k in r.idx) ==> r.idx[k] == 0 && !r.wrapped[k] && fresh(r.values[k])
 //@   ensures forall k2 K :: k2 != k ==> (k2 in r.idx) == old(k2 in r.idx) && r.idx[k2] == old(r.idx[k2]) && r.values[k2] == old(r.values[k2]) && r.wrapped[k2] == old(r.wrapped[k2])
 //@   ensures forall k2 K, i int :: k2 != k && k2 in r.idx && 0 <= i && i < r.length ==> r.values[k2][i] == old(r.values[k2][i])
+//@   ensures has(r, k) && newest(r, k) == value && ringLen(r) == old(ringLen(r))
+//@   ensures forall k2 K :: k2 != k ==> has(r, k2) == old(has(r, k2)) && newest(r, k2) == old(newest(r, k2))
+//@   ensures forall k2 K, i int :: k2 != k ==> slot(r, k2, i) == old(slot(r, k2, i)) && validSlot(r, k2, i) == old(validSlot(r, k2, i)) && rank(r, k2, i) == old(rank(r, k2, i))
 //@   assigns r.idx[*], r.values[*], r.wrapped[*], r.values[k][*]
 
 //@ func (*RAT).Values
@@ -283,6 +299,8 @@ package comp
 //@   ensures result != nil && fresh(result)
 //@   ensures forall k K :: (k in result) == (k in r.idx)
 //@   ensures forall k K :: k in r.idx ==> result[k] == r.values[k][r.idx[k]]
+//@   ensures forall k K :: (k in result) == has(r, k)
+//@   ensures forall k K :: has(r, k) ==> result[k] == newest(r, k)
 //@   assigns nothing
 //@   loop 0: invariant forall k K :: (k in m) == visited(k)
 //@   loop 0: invariant forall k K :: visited(k) ==> k in r.idx && m[k] == r.values[k][r.idx[k]]
@@ -294,9 +312,13 @@ package comp
 //@   ensures result != nil && fresh(result)
 //@   ensures forall k K :: (k in result) == (exists i :: validSlot(r, k, i) && predicate(r.values[k][i]))
 //@   ensures forall k K, i int :: k in result && validSlot(r, k, i) && predicate(r.values[k][i]) && (forall i2 :: validSlot(r, k, i2) && predicate(r.values[k][i2]) ==> rank(r, k, i) <= rank(r, k, i2)) ==> result[k] == r.values[k][i]
+//@   ensures forall k K :: (k in result) == (exists i :: validSlot(r, k, i) && predicate(slot(r, k, i)))
+//@   ensures forall k K, i int :: k in result && validSlot(r, k, i) && predicate(slot(r, k, i)) && (forall i2 :: validSlot(r, k, i2) && predicate(slot(r, k, i2)) ==> rank(r, k, i) <= rank(r, k, i2)) ==> result[k] == slot(r, k, i)
+//@   ensures forall k K :: k in result ==> (exists i :: validSlot(r, k, i) && result[k] == slot(r, k, i) && predicate(result[k]))
 //@   assigns nothing
 //@   loop 0: invariant forall k K :: !visited(k) ==> !(k in m)
 //@   loop 0: invariant forall k K :: visited(k) ==> k in r.idx && (k in m) == (exists i :: validSlot(r, k, i) && predicate(r.values[k][i]))
 //@   loop 0: invariant forall k K, i int :: visited(k) && k in m && validSlot(r, k, i) && predicate(r.values[k][i]) && (forall i2 :: validSlot(r, k, i2) && predicate(r.values[k][i2]) ==> rank(r, k, i) <= rank(r, k, i2)) ==> m[k] == r.values[k][i]
+//@   loop 0: invariant forall k K :: visited(k) && k in m ==> (exists i :: validSlot(r, k, i) && m[k] == r.values[k][i] && predicate(m[k]))
 //@   loop 1: invariant -1 <= i && i <= v && !found && (forall j :: i < j && j <= v ==> !predicate(r.values[k][j]))
 //@   loop 2: invariant v <= i && i <= r.length - 1 && (forall j :: i < j && j < r.length ==> !predicate(r.values[k][j]))
